@@ -251,6 +251,20 @@ def run_variant(rec):
     except Exception as ex:  # noqa
         return [("expand-validate-raises", "validate(%r) raised %s: %s" % (text, type(ex).__name__, ex))]
     codes = sorted({i["code"] for i in issues if i.get("severity", 1) == 1})
+    # the verdict on a (hand-written) Def-expand group must not depend on what was done to the object before:
+    # validate; expand (a no-op for Def-expand groups); validate; copy; validate the copy
+    try:
+        h = HedString("Item, " + text, schema, _G["vdd"])
+        seq = [sorted({i["code"] for i in h.validate(allow_placeholders=False) if i.get("severity", 1) == 1})]
+        h.expand_defs()
+        seq.append(sorted({i["code"] for i in h.validate(allow_placeholders=False) if i.get("severity", 1) == 1}))
+        h2 = h.copy()
+        seq.append(sorted({i["code"] for i in h2.validate(allow_placeholders=False) if i.get("severity", 1) == 1}))
+        if any(x != codes for x in seq):
+            return [("def-expand-verdict-unstable", "%r: fresh object reports %s, but along validate/expand/validate/copy/validate "
+                     "the same content reports %s" % (text, codes, seq))]
+    except Exception as ex:  # noqa
+        return [("expand-validate-raises", "validate/expand/copy on %r raised %s: %s" % (text, type(ex).__name__, ex))]
     if rec["accept"] and codes:
         return [("def-expand-reordered-rejected", "%r equals the expansion up to sibling order but validation reports %s"
                  % (text, codes))]
